@@ -16,6 +16,19 @@ Theorem C15_iff :
 Proof. exact setbyuser_iff. Qed.
 Print Assumptions C15_iff.
 
+(** The "only if" half rests on the flag being false when the declaration is made, whatever the caller's variable held
+    before (the repair D12: the library used to leave the variable alone and only ever write true to it): every
+    container that doInit produces has its flag down, for every declaration list, spec and environment. *)
+Theorem C15_flag_starts_false :
+  forall (parse_float : str -> option str) (getenv : str -> str) (ds : list decl) (spec : str) (i : inited),
+    do_init parse_float getenv ds spec = IOk i ->
+    Forall (fun c => ct_user c = false) (i_opts i) /\ Forall (fun c => ct_user c = false) (i_args i).
+Proof.
+  intros pf ge ds spec i H. apply (do_init_conts pf ge) in H.
+  exact (declare_user pf ge ds [] [] _ _ H (Forall_nil _) (Forall_nil _)).
+Qed.
+Print Assumptions C15_flag_starts_false.
+
 (** ... and, read off the command line: for a compiled command whose automaton has no spec-level "--" and a
     command line that reads cleanly ([view]: occurrences of options with their values, positionals, the first
     "--"), the flag of option number k is true iff option k is WRITTEN on the line — it has at least one
